@@ -315,7 +315,9 @@ def _to_obs(prefix, fn, raw, replay=None):
     obs = []
     for name, status, model, dt in raw:
         det = {}
-        if model:
+        if model and "xcheck" in model:
+            det["xcheck"] = model["xcheck"]
+        elif model:
             det["counter_model"] = model
             if replay is not None:
                 try:
